@@ -332,6 +332,7 @@ pub fn crash_plan(prop: &str, tier: &str) -> Plan {
         "C03" => "c03",
         "C04" => "c04",
         "C17" => "c17",
+        "C14" => return fault_plan(thorough),
         _ => panic!("no crash plan for {prop}"),
     };
     let mut cases: Vec<Value> = hs
@@ -351,5 +352,53 @@ pub fn crash_plan(prop: &str, tier: &str) -> Plan {
         "the recorded order is one real execution; crash images are the states that execution could have left (pool-thread schedule diversity comes from repeated runs / worker counts, not enumerated here)".into(),
         "file-system model: process crash = completed syscalls persist, in-flight ones are atomic per call; power loss = as stated in the rule; the seam self-check (pre-image + recorded events = real directory) runs on every traced operation".into(),
     ];
+    p
+}
+
+fn fault_plan(thorough: bool) -> Plan {
+    let hs = crash_histories(false);
+    let mut cases: Vec<Value> = vec![];
+    for (h, t, b) in hs {
+        // quick: the explicit histories and the bound-≤1 family; thorough: everything, plus 3 workers
+        if !thorough && b == 1 && h["seed"] != "empty" {
+            continue;
+        }
+        cases.push(json!({"mode": "c14", "hist": h, "target": t, "bound": b}));
+    }
+    if thorough {
+        for (h, t, b) in crash_histories(true) {
+            if h["cfg"]["cc"] == 3 && b <= 1 {
+                cases.push(json!({"mode": "c14", "hist": h, "target": t, "bound": b}));
+            }
+        }
+    }
+    // bucket exhaustion: tiny tables; a batch of k key pairs needs k+1 merkle pages (the root page
+    // and one depth-1 page per pair); k+1 ranges from "just fits" to 3 more than the table holds
+    for buckets in [4u32, 5, 7, 8] {
+        for extra in 0..=3u32 {
+            let k = buckets - 1 + extra;
+            let mut cfg = cfg_crash();
+            cfg.buckets = buckets;
+            let uni = format!("PAIRS:{k}");
+            let batch: Vec<Value> = (0..2 * k).map(|i| json!([i, "w", 1])).collect();
+            // all at once, and in two commits (second one exhausts a partly filled table)
+            let h = hist("empty", vec![&uni], &cfg, vec![json!({"c": batch.clone()})]);
+            cases.push(json!({"mode": "c14x", "hist": h, "target": 0, "bound": 2}));
+            let half = (batch.len() / 2) & !1;
+            let h2 = hist("empty", vec![&uni], &cfg, vec![json!({"c": batch[..half].to_vec()}), json!({"c": batch[half..].to_vec()})]);
+            cases.push(json!({"mode": "c14x", "hist": h2, "target": 1, "bound": 2}));
+        }
+    }
+    sort_by_bound(&mut cases);
+    let mut p = Plan::new(
+        cases,
+        "crashx fault enumeration: for every traced operation of the history set H3 (commits, overlay commits, rollbacks, reopens; see C03) and EVERY mutating or syncing file operation it performs — identified by (file, kind, ordinal) from a fault-free reference run — the history is re-executed and that operation is made to fail with EIO, (a) once and (b) persistently from then on; page writes through the I/O pool fail both at submission (not performed) and at completion (performed, reported failed). Oracle per injected run: the call returns an error (success with the failure inside the call = swallowed failure; panic; hang detected by a per-case watchdog with resume), the handle is poisoned and refuses a further commit, and after drop a fault-free reopen shows exactly the pre-state (or the post-state, only if the meta fsync had completed). Bucket exhaustion: tables of 4/5/7/8 buckets with cluster batches needing more pages than fit: the commit must return an error (not hang), poison, and leave the pre-state. transitions = injected executions.",
+    );
+    p.level = "fault_enumeration";
+    p.budget_s = if thorough { 1700 } else { 50 };
+    p.isolate = true;
+    p.case_timeout_s = 20;
+    p.timeout_is_violation = true;
+    p.assumptions = vec!["failures are injected at the I/O seam (before the syscall / at I/O-pool submission or completion); read failures are not injected".into()];
     p
 }
